@@ -136,6 +136,13 @@ func (x *Exec) guardFor(key string) *guardRule {
 }
 
 // guardCheck is called at every heap access the verifier executes.
+// guardCheckIndexed: an access to one element of a map (m[k], m[k] = v, delete(m, k)).
+func (x *Exec) guardCheckIndexed(st *State, key string, addr *Term, write bool) {
+	x.indexedAccess = true
+	defer func() { x.indexedAccess = false }()
+	x.guardCheck(st, key, addr, write)
+}
+
 func (x *Exec) guardCheck(st *State, key string, addr *Term, write bool) {
 	if len(x.guardRules) == 0 || x.cur == nil || x.curFrame == nil || st.dead || x.inSpec > 0 {
 		return
@@ -160,7 +167,11 @@ func (x *Exec) guardCheck(st *State, key string, addr *Term, write bool) {
 			return
 		}
 	}
+	shardHeld := false
 	for _, h := range st.held {
+		if strings.HasPrefix(h.Desc, "elem:") {
+			shardHeld = true
+		}
 		switch {
 		case g.guard == "shard" && strings.HasPrefix(h.Desc, "elem:"):
 			if !write || h.Write {
@@ -171,6 +182,11 @@ func (x *Exec) guardCheck(st *State, key string, addr *Term, write bool) {
 				ok = true
 			}
 		}
+	}
+	if g.guard == "mu+shard" && x.indexedAccess && !shardHeld {
+		// the record of one key is looked up or changed only while that key's shard lock is held:
+		// lookup and use are then one atomic step with respect to stores of the same key
+		ok = false
 	}
 	mode := "read"
 	if write {
@@ -184,6 +200,10 @@ func (x *Exec) guardCheck(st *State, key string, addr *Term, write bool) {
 	label := fmt.Sprintf("%s %s@%s", mode, shortKey(key), x.siteLabelOrFunc())
 	x.oblige(x.curFrame, st, "guarded", label, goal, x.curNode)
 	x.Obls[len(x.Obls)-1].Tag = "C15"
+	if g.guard == "mu+shard" && x.indexedAccess {
+		// also the atomicity of lookup-and-use per key that C01 rests on
+		x.Obls[len(x.Obls)-1].Tag = "C15,C01"
+	}
 }
 
 func shortKey(key string) string {
